@@ -539,7 +539,10 @@ class Pipeline:
             else:
                 cache_key = compute_cache_key(
                     func.output_name,
-                    self._func_defaults(func) | flat_scope_kwargs | func._bound,
+                    # The root arguments are parameters of upstream functions (a parameter that
+                    # is bound in `func` is not a root argument of `func`), `func._bound` says
+                    # nothing about their values.
+                    self._func_defaults(func) | flat_scope_kwargs,
                     root_args,
                 )
             return_now, result_from_cache = get_result_from_cache(
